@@ -2131,6 +2131,10 @@ bool TypeChecker::checkExpression(expression_t expr)
 
         bool result = true;
         type_t type = expr[0].get_type();
+        if (expr.get_size() != type.size()) {
+            // The number of arguments differs from the number of parameters: reported when the call was built.
+            return false;
+        }
         size_t parameters = type.size() - 1;
         for (uint32_t i = 0; i < parameters; i++) {
             type_t parameter = type[i + 1];
